@@ -18,6 +18,7 @@ import ReuseVerif.Lemmas.Merge
 import ReuseVerif.Lemmas.C02Lines
 import ReuseVerif.Lemmas.C02TailSafe
 import ReuseVerif.Lemmas.C02Copyright
+import ReuseVerif.Lemmas.C02Extract
 import ReuseVerif.Theorems.C20
 
 namespace C02
@@ -603,5 +604,75 @@ example : "MIT".toList ∈ (extractRawWith Generated.endRe (decodedText (window
 
 /-- Valid UTF-8 decodes to the text it encodes (every Unicode scalar value, all four lengths). -/
 theorem C02_decode_valid_utf8 (t : Text) : decodeUtf8 (encodeUtf8 t) = t := decodeUtf8_encodeUtf8 t
+
+/-! ### the whole extraction: all three kinds of lines in one text -/
+
+/-- **`extract_reuse_info` returns exactly what is planted.**  The text is any number of lines in any order (separated
+    by line feeds), each one of: a licence tag line, a contributor tag line, a copyright notice line — each well formed
+    by conditions on *that line alone* (`InfoLine.ok`: the hypotheses of `C02_tag_lines_general` resp.
+    `C02_copyright_lines`, and the line holds nothing of the two other kinds) — or an information-free line (neither
+    tag, no notice; otherwise arbitrary); no line holds `REUSE-IgnoreStart` or a `str.splitlines` boundary.  Then the
+    result is exactly the planted licence values, the planted notices and the planted contributor values, each as a set
+    in order of first occurrence: nothing of any decoration or terminator becomes part of a value, nothing of a value
+    is lost, nothing else is reported. -/
+theorem C02_extract_exact (endRe : Re) (hG : EndGuarded endRe) (ls : List InfoLine)
+    (hok : ∀ l ∈ ls, l.ok endRe = true) :
+    extractRawWith endRe (infoTextOf ls) = plantedInfo ls :=
+  C02L.extract_text hG ls hok (C02_copyright_line_read endRe)
+
+/-- the same with purely syntactic hypotheses (each line given with the pieces of its trail; no run of the matcher
+    in any hypothesis) -/
+theorem C02_extract_exact_syn (endRe : Re) (hG : EndGuarded endRe) (ls : List (InfoLine × List Text))
+    (hok : ∀ p ∈ ls, p.1.syn endRe p.2 = true) :
+    extractRawWith endRe (infoTextOf (ls.map (·.1))) = plantedInfo (ls.map (·.1)) := by
+  apply C02_extract_exact endRe hG
+  intro l hl
+  obtain ⟨p, hp, rfl⟩ := List.mem_map.mp hl
+  exact C02L.infoLine_ok_of_syn endRe p.1 p.2 (hok p hp)
+
+/-- the hypotheses are satisfiable (`C02L.exampleLines`: a shebang line, two notices, three licence lines — one
+    duplicate, one with a parenthesised expression and trailing blank —, a contributor in a C comment, a line with
+    an unclosed quote, a final line feed) -/
+example : extractRawWith Generated.endRe (infoTextOf (C02L.exampleLines.map (·.1))) =
+    { lic := ["MIT".toList, "(MIT OR X)".toList]
+      cpr := ["SPDX-FileCopyrightText: 2020 Jane Doe <jane@example.org>".toList,
+              "Copyright (C) 2019-2021 Example Corp".toList]
+      con := ["Alice".toList] } := by
+  rw [C02_extract_exact_syn Generated.endRe C02_end_guarded C02L.exampleLines C02L.exampleLines_syn]
+  decide +kernel
+
+/-- **The file.**  A file that is the UTF-8 encoding of such a text and that fits the 4096-byte window or holds the
+    snippet indicator (then the whole file is read), all planted licence expressions parsing: `reuse_info_of_file`
+    reports exactly the planted information — or nothing at all when neither a licence nor a notice is planted
+    (contributors alone do not count). -/
+theorem C02_file_exact (parses : Text → Bool) (ls : List InfoLine) (hok : ∀ l ∈ ls, l.ok Generated.endRe = true)
+    (hparse : ∀ v ∈ (plantedInfo ls).lic, parses v = true)
+    (hfit : (encodeUtf8 (infoTextOf ls)).length ≤ 4096 ∨ containsSnippet (encodeUtf8 (infoTextOf ls)) = true) :
+    infoOfFile parses (encodeUtf8 (infoTextOf ls)) =
+      if (plantedInfo ls).lic.isEmpty && (plantedInfo ls).cpr.isEmpty then Extracted.empty else plantedInfo ls := by
+  unfold infoOfFile
+  rw [C02L.window_all _ hfit, C02L.decodedText_encode _ (C02L.infoText_noCR ls hok)]
+  exact C02L.infoOfDecoded_of_extract parses _ _ (C02_extract_exact Generated.endRe C02_end_guarded ls hok) hparse
+
+/-- the hypotheses are satisfiable: the example text as a file (239 bytes) -/
+example : infoOfFile (fun _ => true) (encodeUtf8 (infoTextOf (C02L.exampleLines.map (·.1)))) =
+    plantedInfo (C02L.exampleLines.map (·.1)) := by
+  rw [C02_file_exact (fun _ => true) _ (by
+    intro l hl
+    obtain ⟨p, hp, rfl⟩ := List.mem_map.mp hl
+    exact C02L.infoLine_ok_of_syn _ p.1 p.2 (C02L.exampleLines_syn p hp)) (fun _ _ => rfl) (.inl (by decide +kernel))]
+  decide +kernel
+
+/-- … and with the snippet indicator in a file of any length -/
+example : containsSnippet (encodeUtf8 (infoTextOf
+    [.other "# SPDX-SnippetBegin".toList, .lic ⟨"# ".toList, " ".toList, "MIT".toList, []⟩])) = true ∧
+    ∀ l ∈ [InfoLine.other "# SPDX-SnippetBegin".toList, .lic ⟨"# ".toList, " ".toList, "MIT".toList, []⟩],
+      l.ok Generated.endRe = true := by
+  refine ⟨by decide +kernel, ?_⟩
+  intro l hl
+  simp only [List.mem_cons, List.not_mem_nil, or_false] at hl
+  rcases hl with rfl | rfl
+  · exact C02L.infoLine_ok_of_syn _ _ [] (by decide +kernel)
+  · exact C02L.infoLine_ok_of_syn _ _ [] (by decide +kernel)
 
 end C02
